@@ -207,6 +207,16 @@ type clientStream struct {
 
 func (cs *clientStream) Send(r *protoReplicaV1.ReplicaRequest) error {
 	w := cs.p.w
+	if w.tickGate != nil {
+		// area `tick`: the replica call is held here — Consume has moved the consumed sequence, the request has not
+		// left — until the schedule says what becomes of it (delivered and answered, or lost)
+		w.tickSeq = r.ReplicaIndex
+		w.tickAtSend <- struct{}{}
+		if v := <-w.tickGate; v == "lose" {
+			w.sendTried, w.sendFailed = true, true
+			return errors.New("injected: request lost (tick)")
+		}
+	}
 	w.sendTried = true
 	if cs.s.closed || cs.s.gen != cs.p.fgen || cs.p.connClosed(cs.s.conn) {
 		w.sendFailed = true
@@ -416,6 +426,14 @@ type world struct {
 	hsSeen, hsReset                   bool
 	hsRemoteAck, hsLeaderApp          int64
 	hsLeaderCons                      int64
+
+	// area `tick` (tick.go): the gate inside the loopback's Send and the expiry check held at its yield point
+	tickGate   chan string   // non-nil: Send waits here for "ack" / "lose"
+	tickAtSend chan struct{} // a replica call has reached the gate
+	tickSeq    int64         // ... with this replica index
+	tickArmed  bool          // hold IsExpire at the yield point c08-expire-tested
+	tickAtStop chan struct{} // IsExpire has found a drained group and is about to call stopReplicator
+	tickGo     chan struct{} // let it go on
 
 	// oracle bookkeeping
 	lossSeen bool              // an lrestore happened
